@@ -177,7 +177,11 @@ def run(case):
             if outmode == "scalar":
                 tot = 0.0
                 for i, term in enumerate(prog):
-                    tot = tot + term_value(roots[2 - i % 3], tree, term)     # the LAST copy first: its cotangent is the third to be accumulated
+                    tv = term_value(roots[2 - i % 3], tree, term)     # the LAST copy first: its cotangent is the third to be accumulated
+                    if case["id"] % 3 == 1:
+                        # through autograd's own tuple / list constructors, next to CONSTANT elements (not last): the constants' slots carry zeros
+                        tv = (atuple((1.5, tv, 0.5)) if i % 2 == 0 else alist([2.5, 0.25, tv]))[1 if i % 2 == 0 else 2]
+                    tot = tot + tv
                 return tot
             vals = [term_value(roots[2 - i % 3], tree, term) for i, term in enumerate(prog)]
             if outmode == "tuple":
